@@ -28,6 +28,16 @@ check('canon square', T._canon('(Flt.powi (a + b) (2 : Int))') == T._canon('((b 
 check('canon cube is not a square', T._canon('(Flt.powi a (3 : Int))') != T._canon('(a * a)'))
 # negations
 check('negations', '(Flt.beq k_1 one)' in T._negations('(!(Flt.beq k_1 one))') and '(a == b)' in T._negations('(a != b)'))
+# a scalar constant and its literal
+T.REF_SCALAR_CONSTS.clear(); T.REF_SCALAR_CONSTS['C.EPS'] = '(Flt.lit 0x3F 1107 125000)'
+ref4 = {'k': 'def k {α : Type} [Flt α] (x_1 : α) : α :=\n  ((C.EPS : α) * x_1)'}
+new4 = 'def k {α : Type} [Flt α] (x_1 : α) : α :=\n  (x_1 * (Flt.lit 0x3F 1107 125000))'
+check('const ~ literal (whole def)', T.orient_like_reference(new4, ref4) == ref4['k'])
+new5 = 'def k {α : Type} [Flt α] (x_1 : α) : α :=\n  ((x_1 * (Flt.lit 0x3F 1107 125000)) - x_1)'
+check('const ~ literal (sub-term)', '(C.EPS : α)' in T.orient_like_reference(new5, ref4))
+new6 = 'def k {α : Type} [Flt α] (x_1 : α) : α :=\n  (x_1 * (Flt.lit 0x3F 1108 125000))'
+check('another literal is not the constant', 'C.EPS' not in T.orient_like_reference(new6, ref4))
+T.REF_SCALAR_CONSTS.clear()
 # inlining of a helper that the reference does not have
 emitted = {
   'pct': ('def pct {α : Type} [Flt α] (x_1 : α) : α :=\n  (x_1 * (Flt.lit 0x4059000000000000 100 1))', set()),
